@@ -46,8 +46,42 @@ func (im impl) Exec(h *vh.H, op string) string {
 		return execRules(h, op)
 	case strings.HasPrefix(op, "schema "):
 		return execSchema(h, op)
+	case strings.HasPrefix(op, "probe "):
+		return execProbe(op)
 	}
 	return "bad-op"
+}
+
+// execProbe (development aid, never generated): `probe <hex of a j5s file with object Foo>` prints
+// the compiled fields of Foo (constraint dump, presence) and their reflected flat forms.
+func execProbe(op string) string {
+	b, ok := vh.UnHex(strings.TrimPrefix(op, "probe "))
+	if !ok {
+		return "bad-op"
+	}
+	file, err := compileJ5s(string(b))
+	if err != nil {
+		return "err " + err.Error()
+	}
+	md := file.Messages().ByName("Foo")
+	if md == nil {
+		return "err no Foo"
+	}
+	var out []string
+	for i := 0; i < md.Fields().Len(); i++ {
+		fd := md.Fields().Get(i)
+		out = append(out, fmt.Sprintf("%s: %s pres=%s", fd.Name(), dumpFC(fieldConstraints(fd)), b01(fd.HasPresence())))
+	}
+	lines, e := reflectAll(file, nil)
+	out = append(out, "reflect="+e)
+	out = append(out, lines...)
+	if re, txt, err := reparse(file); err != nil {
+		out = append(out, "text-error "+err.Error(), txt)
+	} else {
+		tl, te := reflectAll(re, nil)
+		out = append(out, "text-reflect="+te+" same="+b01(strings.Join(tl, "|") == strings.Join(lines, "|")), txt)
+	}
+	return strings.Join(out, "\n")
 }
 
 // ---------------------------------------------------------------- compile.rules
